@@ -245,11 +245,17 @@ func execChain(args []string, lines [][]string) []string {
 
 	prevEnv := flamego.Env()
 	defer flamego.SetEnv(prevEnv)
-	if dev {
-		flamego.SetEnv(flamego.EnvTypeDev)
-	} else {
-		flamego.SetEnv(flamego.EnvTypeProd)
+	// The instance (and its Recovery middleware) is BUILT under the opposite environment and the
+	// session's environment is set just before the first request is served: what the client sees
+	// must depend on the environment at the time of the panic, not at construction time.
+	setEnv := func(d bool) {
+		if d {
+			flamego.SetEnv(flamego.EnvTypeDev)
+		} else {
+			flamego.SetEnv(flamego.EnvTypeProd)
+		}
 	}
+	setEnv(!dev)
 
 	var hs []chainHandler
 	bad := false
@@ -302,6 +308,7 @@ func execChain(args []string, lines [][]string) []string {
 			}
 			if f == nil {
 				build()
+				setEnv(dev)
 			}
 			outs = append(outs, serveChain(f, path, cur))
 		default:
